@@ -114,7 +114,7 @@ fn initial_residuals<N, F, const V: usize>(
     mut f: F,
     jac: &mut DMatrix<N>,
     jac_transpose: &mut DMatrix<N>,
-    mut params: SVector<N, V>,
+    params: &mut SVector<N, V>,
 ) -> Result<(N::RealField, DVector<N>), String>
 where
     N: ComplexField + Copy + FromPrimitive,
@@ -123,7 +123,7 @@ where
 {
     let mut resid = Vec::with_capacity(xs.len());
     for (ind, &x) in xs.iter().enumerate() {
-        resid.push(ys[ind] - f(x, &params));
+        resid.push(ys[ind] - f(x, params));
     }
     let sum_sq_initial: N::RealField = resid
         .iter()
@@ -135,7 +135,7 @@ where
     let mut damping_tmp = *damping / damping_mult;
     let mut j = 0;
     let mut evaluation: DVector<N> =
-        DVector::from_iterator(xs.len(), xs.iter().map(|&x| f(x, &params)));
+        DVector::from_iterator(xs.len(), xs.iter().map(|&x| f(x, params)));
     while sum_sq > sum_sq_initial && j < 1000 {
         damping_tmp *= damping_mult;
         let diff = ys - &evaluation;
@@ -150,15 +150,15 @@ where
         if !solved {
             return Err("curve_fit: unable to solve linear equation".to_owned());
         }
-        params += &b;
-        evaluation = DVector::from_iterator(xs.len(), xs.iter().map(|&x| f(x, &params)));
+        *params += &b;
+        evaluation = DVector::from_iterator(xs.len(), xs.iter().map(|&x| f(x, params)));
         let diff = ys - &evaluation;
         sum_sq = diff
             .iter()
             .map(|&r| r.modulus_squared())
             .fold(N::RealField::zero(), |acc, r| acc + r);
         j += 1;
-        jac_finite_differences(&mut f, xs, &mut params, jac, h);
+        jac_finite_differences(&mut f, xs, params, jac, h);
         *jac_transpose = jac.transpose();
     }
     if j != 1000 {
@@ -315,7 +315,7 @@ where
         &mut f,
         &mut jac,
         &mut jac_transpose,
-        params,
+        &mut params,
     )?;
 
     let mut last_sum_sq = sum_sq;
